@@ -1,4 +1,6 @@
 import PynModel.Process.Randomize
+import PynProofs.Cover
+import PynProps.C01
 /-!
 # C20 — surrogate generators conserve what they promise to conserve
 Model: `Pyn.shiftOne`/`shiftTs`, `jitterTs`, `shuffleTs` — each generator is a deterministic function of
@@ -98,5 +100,71 @@ theorem jitter_count (ts js : Array Int) (h : ts.size = js.size) : (jitterTs ts 
 example : shiftTs #[100500, 101500, 109500] 100000 110000 3250 = #[102750, 103750, 104750] := by decide +kernel
 example : shiftTs #[100500, 101500, 109500] 100000 110000 9000 = #[100500, 108500, 109500] := by decide +kernel
 example : shuffleTs [5, 7, 8, 12] [2, 0, 1] = [5, 9, 11, 12] := by decide +kernel
+
+
+/-! ## jitter: order statistics move by at most the largest jitter -/
+
+theorem jitter_toList (ts js : Array Int) :
+    (jitterTs ts js).toList = isort ((ts.toList.zip js.toList).map fun p => p.1 + p.2) := by
+  simp [jitterTs, sortArr, Array.toList_zip]
+
+/-- **jitter moves the k-th timestamp (in sorted order) by at most the largest jitter**: if every drawn jitter has
+absolute value ≤ d, then the k-th smallest jittered timestamp differs from the k-th original timestamp by at most d
+— for any number of timestamps, ties included -/
+theorem jitter_order_stat (ts js : Array Int) (h : ts.size = js.size) (hs : Sorted ts) (d : Int)
+    (hj : ∀ i, (hi : i < js.size) → -d ≤ js[i] ∧ js[i] ≤ d) (k : Nat) (hk : k < ts.size) :
+    ts[k] - d ≤ (jitterTs ts js)[k]'(by rw [jitter_count ts js h]; exact hk) ∧
+    (jitterTs ts js)[k]'(by rw [jitter_count ts js h]; exact hk) ≤ ts[k] + d := by
+  have hA : ts.toList.Pairwise (· ≤ ·) := by
+    rw [List.pairwise_iff_getElem]
+    intro i j hi hj' hij
+    simpa using hs i j (by simpa using hi) (by simpa using hj') (Nat.le_of_lt hij)
+  let P := ts.toList.zip js.toList
+  have hmem : ∀ p ∈ P, -d ≤ p.2 ∧ p.2 ≤ d := by
+    intro p hp
+    obtain ⟨i, hi, e⟩ := List.mem_iff_getElem.1 hp
+    have hi' : i < js.size := by simp [P, List.length_zip] at hi; omega
+    have := hj i hi'
+    rw [← e]; simp [P, List.getElem_zip]; exact this
+  have eA : ts.toList = P.map Prod.fst := by simp [P, List.map_fst_zip, h]
+  have hB : (jitterTs ts js).toList = isort (P.map fun p => p.1 + p.2) := jitter_toList ts js
+  have hBs : (isort (P.map fun p => p.1 + p.2)).Pairwise (· ≤ ·) := C01.pairwise_isort _
+  have hkB : k < (isort (P.map fun p => p.1 + p.2)).length := by
+    rw [length_isort]; simp [P, List.length_zip]; omega
+  have hkA : k < ts.toList.length := by simpa using hk
+  have eBk : (jitterTs ts js)[k]'(by rw [jitter_count ts js h]; exact hk) = (isort (P.map fun p => p.1 + p.2))[k] := by
+    simp [← hB]
+  rw [eBk]
+  constructor
+  · -- lower bound
+    have hnot : ¬ (isort (P.map fun p => p.1 + p.2))[k] < ts[k] - d := by
+      rw [sorted_lt_iff _ hBs _ k hkB, cntLt_isort]
+      have h1 : cntLt (P.map fun p => p.1 + p.2) (ts[k] - d) ≤ cntLt ts.toList ts[k] := by
+        unfold cntLt
+        rw [eA, List.countP_map, List.countP_map]
+        apply List.countP_mono_left
+        intro p hp hq
+        have := hmem p hp
+        simp at hq ⊢; omega
+      have h2 : ¬ k < cntLt ts.toList ts[k] := by
+        rw [← sorted_lt_iff _ hA _ k hkA]; simp
+      omega
+    omega
+  · -- upper bound
+    rw [sorted_le_iff _ hBs _ k hkB, cntLe_isort]
+    have h1 : cntLe ts.toList ts[k] ≤ cntLe (P.map fun p => p.1 + p.2) (ts[k] + d) := by
+      unfold cntLe
+      rw [eA, List.countP_map, List.countP_map]
+      apply List.countP_mono_left
+      intro p hp hq
+      have := hmem p hp
+      simp at hq ⊢; omega
+    have h2 : k < cntLe ts.toList ts[k] := by
+      rw [← sorted_le_iff _ hA _ k hkA]; simp
+    omega
+
+
+-- non-vacuity: ties, a jitter that reorders two timestamps
+example : jitterTs #[0, 10, 10, 20] #[5, -5, 5, -4] = #[5, 5, 15, 16] := by decide +kernel
 
 end Pyn.C20
